@@ -168,8 +168,20 @@ def side_case(seed):
         opt = rng.choice(['eigenvectors', 'eigenfunctionevals', 'eigentensors'])
         nev = rng.choice([np.inf, np.inf, 1, 2])
         desc.update(p=p, N=N, m=m, reweight=rew, rel_threshold=relthr, threshold=thr, max_rank=str(maxr), return_option=opt, num_eigvals=str(nev))
+        x_arg = x
+        if rng.random() < 0.15:             # integer-valued snapshots typed int64 (lattice points)
+            x_arg = np.rint(2 * x).astype(np.int64)
+            x = x_arg.astype(float)
+            desc['int_typed'] = True
         tuples, P, LP, G = dense_tables(basis, x, b, sigma)
         sw = np.sqrt(w) if rew else np.ones(m)
+        if relthr and rng.random() < 0.4:
+            # a relative threshold just below one of the singular-value ratios of the (weighted) data matrix
+            s_all = np.linalg.svd(P * sw[None, :], compute_uv=False)
+            cand = [v_ / s_all[0] for v_ in s_all[1:] if v_ / s_all[0] > 1e-6]
+            if cand:
+                thr = float(rng.choice(cand)) / 1.15
+                desc['threshold'] = thr
         # independent global SVD mode by mode (the documented cut in every mode: absolute or relative threshold, then the
         # rank cap; the weights enter at the last mode), in dense form: U is N x r with orthonormal columns
         tabs = [np.array([[float(f(x[:, j])) for j in range(m)] for f in bl]) for bl in basis]
@@ -214,9 +226,9 @@ def side_case(seed):
         else:
             Mref = Vh @ np.diag(sw) @ LP.T @ U @ np.diag(1 / s)
         ref = np.linalg.eigvals(Mref)
-        keepx = [x.copy(), sigma.copy()] + ([b.copy()] if b is not None else []) + ([w.copy()] if rew else [])
-        out = quiet(tg.amuset_hosvd, x, basis, sigma, b=b, reweight=w, num_eigvals=nev, threshold=thr, max_rank=maxr, return_option=opt, rel_threshold=relthr)
-        nowx = [x, sigma] + ([b] if b is not None else []) + ([w] if rew else [])
+        keepx = [x_arg.copy(), sigma.copy()] + ([b.copy()] if b is not None else []) + ([w.copy()] if rew else [])
+        out = quiet(tg.amuset_hosvd, x_arg, basis, sigma, b=b, reweight=w, num_eigvals=nev, threshold=thr, max_rank=maxr, return_option=opt, rel_threshold=relthr)
+        nowx = [x_arg, sigma] + ([b] if b is not None else []) + ([w] if rew else [])
         if any(not np.array_equal(a_, b_) for a_, b_ in zip(keepx, nowx)):
             return 'amuset_hosvd modified an input array', desc
         ev, second, ranks = out
